@@ -4,6 +4,7 @@ CONSTANTS
   MaxStore = 4
   MaxDead = 1
   MaxRev = 1
+  Contract = TRUE
   MaxBad = 0
   MaxExtra = 0
 INVARIANTS Sound LocalEmpty Sufficient OnlyVerified
